@@ -19,6 +19,7 @@ import (
 	networkingv1 "k8s.io/api/networking/v1"
 	metav1 "k8s.io/apimachinery/pkg/apis/meta/v1"
 	"k8s.io/apimachinery/pkg/runtime"
+	"k8s.io/apimachinery/pkg/runtime/schema"
 	"k8s.io/apimachinery/pkg/util/intstr"
 	"k8s.io/utils/pointer"
 	"sigs.k8s.io/controller-runtime/pkg/client"
@@ -162,8 +163,10 @@ func webhookConfiguration() *admissionregistrationv1.MutatingWebhookConfiguratio
 func (w *World) Build(s Scenario) error {
 	ctx := context.TODO()
 	h := w.Client(ActorHarness)
-	if err := h.Create(ctx, webhookConfiguration()); err != nil {
-		return err
+	if w.Get(schema.GroupVersionKind{Group: "admissionregistration.k8s.io", Version: "v1", Kind: "MutatingWebhookConfiguration"}, "", configuration.MutatingWebhookConfigurationName) == nil {
+		if err := h.Create(ctx, webhookConfiguration()); err != nil {
+			return err
+		}
 	}
 	sel := &metav1.LabelSelector{MatchLabels: map[string]string{"app": s.Name}}
 	switch s.Workload {
@@ -292,3 +295,64 @@ func (w *World) ValidateRollout(old, obj *v1beta1.Rollout) error {
 }
 
 var _ client.Object = &v1beta1.Rollout{}
+
+// Owns says whether the written object belongs to this scenario's rollout (the Rollout itself,
+// its BatchRelease, workload, ReplicaSets, pods, Services, Ingresses, HTTPRoute, canary
+// Deployment), resolved by exact names and owner references, never by name prefix.
+func (s Scenario) Owns(w *World, wr *Write) bool {
+	obj := wr.After
+	if obj == nil {
+		obj = wr.Before
+	}
+	if obj == nil || obj.GetNamespace() != s.Namespace {
+		return false
+	}
+	return s.ownsObject(w, wr.GVK, obj, 0)
+}
+
+func (s Scenario) ownsObject(w *World, gvk schema.GroupVersionKind, obj client.Object, depth int) bool {
+	name := obj.GetName()
+	switch gvk {
+	case GVKRollout, GVKBatchRelease:
+		return name == s.Name
+	case GVKCloneSet:
+		return s.Workload == "cloneset" && name == s.Name
+	case GVKDeployment:
+		if s.Workload == "deployment" && name == s.Name {
+			return true
+		}
+		return s.Workload == "deployment" && obj.GetLabels()[util.CanaryDeploymentLabel] == s.Name
+	case GVKService:
+		return name == s.StableServiceName() || name == s.CanaryServiceName()
+	case GVKIngress:
+		return name == s.IngressName() || name == s.IngressName()+"-canary"
+	case GVKHTTPRoute:
+		return name == s.RouteName()
+	case GVKReplicaSet, GVKPod:
+		if depth > 3 {
+			return false
+		}
+		ref := metav1.GetControllerOf(obj)
+		if ref == nil {
+			return false
+		}
+		var ogvk schema.GroupVersionKind
+		switch ref.Kind {
+		case "ReplicaSet":
+			ogvk = GVKReplicaSet
+		case "Deployment":
+			ogvk = GVKDeployment
+		case "CloneSet":
+			ogvk = GVKCloneSet
+		default:
+			return false
+		}
+		owner := w.cache[ogvk][client.ObjectKey{Namespace: obj.GetNamespace(), Name: ref.Name}]
+		if owner == nil {
+			// owner already gone: fall back to the app label, which is the workload name
+			return obj.GetLabels()["app"] == s.Name
+		}
+		return s.ownsObject(w, ogvk, owner, depth+1)
+	}
+	return false
+}
